@@ -35,19 +35,17 @@ _buf_n = [0]
 
 
 def as_buffer(data: bytes):
-    """The reader is documented to take bytes, bytearray or memoryview: the same encoding is handed over in each of these,
-    including memoryviews whose item format is signed char or char (what array('b'), ctypes or numpy int8 buffers give)."""
+    """The reader is documented to take bytes, bytearray or memoryview: the same encoding is handed over in each of these
+    (memoryviews of unsigned bytes, whole and sliced).  Views with other item formats (signed char, char - what array('b') or
+    ctypes give) are NOT used: the property does not speak of them, and two independently written property-preserving
+    refactors (C06-r3bB, C07-r3bA) do not support them either, so judging them would alarm on code where the property holds."""
     _buf_n[0] += 1
-    k = _buf_n[0] % 8
+    k = _buf_n[0] % 6
     if k == 1:
         return bytearray(data)
     if k == 2:
         return memoryview(data)
-    if k == 3 and data:
-        return memoryview(bytearray(data)).cast("b")
-    if k == 4 and data:
-        return memoryview(bytearray(data)).cast("c")
-    if k == 5:
+    if k == 3:
         return memoryview(bytearray(b"\x00" + data + b"\x00"))[1:-1]
     return data
 
